@@ -194,3 +194,10 @@ func LifecycleReprepare() {
 func LifecycleRecommit() {
 	lifecycleFrom([][2]int{{0, 0}, {2, 0}, {4, 0}, {7, 0}, {0, 1}, {7, 0}}, 1)
 }
+
+// LifecycleKeptBusyProbe: prepare, half step, a fixed message for the same name, half step, then a
+// free event that probes the state (a new prepare must succeed, anything else must find nothing).
+func LifecycleKeptBusyProbe() {
+	msg := []int{0, 1, 4, 2}[vsym.Choose("kept-busy-with", 4)]
+	lifecycleFrom([][2]int{{0, 0}, {7, 0}, {msg, 0}, {7, 0}}, 1)
+}
